@@ -149,7 +149,7 @@ def c15(tier):
     if tier == "quick":
         return q
     return q + [_ob("H-pipeline/2-fails", HP, "h_pipeline", dict(max_stages=2, fails=True), **_HO),
-                _ob("H-pipeline/3", HP, "h_pipeline", dict(max_stages=3, fails=False), **_HO)]
+                _ob("H-pipeline/3", HP, "h_pipeline", dict(max_stages=3, fails=False, mid_dup=False), **_HO)]
 
 
 def c14(tier):
